@@ -49,10 +49,12 @@ def build_session(rng, tmp, nops, metrics):
     Xv[:2] += 2.0
     Yv = np.array([0, 1, 0, 1])
     Yv[0] = 1
+    Yv1 = np.array([1, 1, 1, 1])        # a validation subset that happens to lack class 0
     # a lattice dataset (many tied distances, several minimum spanning trees): equal data must still give identical forests
     Xg = r.integers(1, 4, size=(n, 2)).astype(float)
     iX, iY, iX0, iXF, iXu, iXv, iYv = (s.add(a, nm) for a, nm in ((X, "X"), (Y, "Y"), (X0, "X0"), (XF, "XF"), (Xu, "Xu"), (Xv, "Xv"), (Yv, "Yv")))
     iXg = s.add(Xg, "Xgrid")
+    iYv1 = s.add(Yv1, "Yv1")
     s.seal()
     mats = [iX, iX0, iXF, iXv]
     group = 0
@@ -103,7 +105,8 @@ def build_session(rng, tmp, nops, metrics):
             if kind == "unsup":
                 cfg["max_k"] = rng.randrange(1, 4)
                 cfg["min_k"] = 1
-            extra = {"sup": (), "semi": (s.pool[iXu],), "knn": (s.pool[iXv], s.pool[iYv]), "unsup": ()}[kind]
+            iyv = iYv1 if group % 3 == 1 else iYv
+            extra = {"sup": (), "semi": (s.pool[iXu],), "knn": (s.pool[iXv], s.pool[iyv]), "unsup": ()}[kind]
             key = [Xi, [H.content_id(e) for e in extra]]
             for twin in range(2):
                 o = s.new_model(kind, group, **cfg)
@@ -128,6 +131,9 @@ def build_session(rng, tmp, nops, metrics):
                 s.fit(o, 1, s.pool[Xi], s.pool[iY], extra, data_key=[s.I("arr", s.pool[Xi]), s.I("arr", s.pool[iY])] + key[1])
                 s.predict(o, 1, s.pool[iXv])
         else:
+            # (learn and prune are deliberately not driven here: learn exchanges samples between the caller's training and
+            # validation arrays in place BY DESIGN - that exchange is what C17 specifies - so C07's "fitting or predicting
+            # leaves caller arrays unchanged" does not speak about them)
             o = s.new_model("sup", 999, distance=rng.choice(["euclidean", "chi_squared"]))
             s.fit(o, s.ctr + 1000, s.pool[iX], s.pool[iY])
             s.call("get_distances", s.objs[o]["m"].get_distances, rng.random() < 0.5)
@@ -185,7 +191,7 @@ def run(tier, seed):
                 changed.append(s.names[k])
         rep.violation("API:" + e["op"], clause[0], clause[1].split(":")[0] if clause[0] == "caller_array_modified_by" else e["name"].split(":")[-1],
                       {"event_index": l, "event": {k: v for k, v in e.items() if k != "arr"}, "arrays_changed": changed, "history_prefix": [x["name"] for x in s.ev[max(0, l - 6): l]], "session": meta, "seed": rep.seed})
-    rep.cov["rule"] = "random API histories over a pool of shared arrays (zeros, negative zeros, tiny/huge, float32, C/F order, row views): all 47 metrics, fit/predict of the four models as refit twins, get_distances; content id of every pooled array after every call"
+    rep.cov["rule"] = "random API histories over a pool of shared arrays (zeros, negative zeros, tiny/huge, float32, C/F order, row views): all 47 metrics, fit/predict of the four models as refit twins (validation labels with and without class 0), get_distances; content id of every pooled array after every call"
     rep.assumptions = ["TLC", "content interning by SHA-256 (equal id <=> bit-equal)", "integer-dtype arrays are not pooled (a decorated metric would raise on them)"]
     return rep.finish()
 
